@@ -115,7 +115,7 @@ func c12Exec(co *caseOut, kind string, in c12Input) (c12Obs, bool) {
 		}
 	}
 	v.SetOnExecHook(func(_ util.Uint160, off int, op opcode.Opcode) {
-		if len(obs.Refs) < c12TraceMax && !obs.F50Shape {
+		if len(obs.Refs) < c12TraceMax { // (since the repair F50 is in the tree the trace is compared through REMOVE cascades too)
 			obs.Refs = append(obs.Refs, v.VerifRefs())
 		}
 		if obs.Static && bad == "" && off != len(script) && !bounds[off] {
@@ -126,7 +126,7 @@ func c12Exec(co *caseOut, kind string, in c12Input) (c12Obs, bool) {
 			obs.EverCyc = true
 		}
 		if c12F50Shape(v, op) {
-			obs.F50Shape = true // from here on the counter of the unrepaired VM may be one short: the trace is not compared
+			obs.F50Shape = true // informational: the shape on which the unrepaired VM under-counted (finding F50)
 		}
 		obs.Res.Steps++
 	})
